@@ -153,3 +153,34 @@ fn probe_key_files_are_exactly_the_key_pair() {
     assert_eq!(x25519_dalek::PublicKey::from(&sk).as_bytes(), pk.as_bytes(), "public key file does not match the private key file");
     let _ = fs::remove_dir_all(&base);
 }
+
+/// C19 (derive.compose): deriving along (p1, .., pn) in one call equals deriving along p1, then p2 from the result, ... step by step,
+/// for 1 to 4 paths (repeated and empty paths included)
+#[test]
+fn probe_keyderive_chain_composes() {
+    let base = std::env::temp_dir().join(format!("verif-mlar-chain-{}", std::process::id()));
+    let _ = fs::remove_dir_all(&base);
+    fs::create_dir_all(&base).unwrap();
+    let root = base.join("root.key");
+    let m = app().try_get_matches_from(["mlar", "keygen", root.to_str().unwrap(), "-s", "CHAIN"]).unwrap();
+    keygen(m.subcommand().unwrap().1).unwrap();
+    let derive = |from: &Path, to: &Path, paths: &[&str]| {
+        let mut argv = vec!["mlar".to_string(), "keyderive".to_string(), from.to_str().unwrap().to_string(), to.to_str().unwrap().to_string()];
+        for p in paths { argv.push("-p".to_string()); argv.push(p.to_string()); }
+        let m = app().try_get_matches_from(argv).unwrap();
+        keyderive(m.subcommand().unwrap().1).unwrap();
+    };
+    for (n, paths) in [vec!["a"], vec!["a", "b"], vec!["a", "b", "c"], vec!["x", "x", "", "y"], vec!["p1", "p2", "p3"]].iter().enumerate() {
+        let oneshot = base.join(format!("oneshot{n}.key"));
+        derive(&root, &oneshot, paths);
+        let mut cur = root.clone();
+        for (i, p) in paths.iter().enumerate() {
+            let next = base.join(format!("step{n}_{i}.key"));
+            derive(&cur, &next, &[p]);
+            cur = next;
+        }
+        assert_eq!(fs::read(&oneshot).unwrap(), fs::read(&cur).unwrap(), "private key derived along {paths:?} in one call differs from the step by step derivation");
+        assert_eq!(fs::read(oneshot.with_extension("pub")).unwrap(), fs::read(cur.with_extension("pub")).unwrap(), "public key derived along {paths:?} differs");
+    }
+    let _ = fs::remove_dir_all(&base);
+}
